@@ -3,6 +3,7 @@ package annotations
 import (
 	"go/ast"
 	"go/token"
+	"go/types"
 	"regexp"
 	"strings"
 
@@ -539,7 +540,7 @@ func ReadAllAnnotations(
 		// Build import map for this file
 		imports := &util.ImportMap{}
 		for _, imp := range file.Imports {
-			imports.Add(imp, pass.Pkg)
+			imports.Add(imp, importedPackage(pass, imp))
 		}
 
 		for _, n := range file.Decls {
@@ -679,6 +680,21 @@ func ReadAllAnnotations(
 		MutableAnnotations:     mutables,
 		PackageOnlyAnnotations: packageonly,
 	}
+}
+
+// importedPackage returns the package an import spec refers to, so that the import map
+// records the imported package's declared name (which may differ from the path's last element).
+func importedPackage(pass *analysis.Pass, spec *ast.ImportSpec) *types.Package {
+	if spec == nil || spec.Path == nil || pass.Pkg == nil {
+		return nil
+	}
+	path := strings.Trim(spec.Path.Value, `"`)
+	for _, imp := range pass.Pkg.Imports() {
+		if imp.Path() == path {
+			return imp
+		}
+	}
+	return nil
 }
 
 // readFieldAnnotationsForType scans struct fields for annotations (currently only @mutable)
